@@ -55,6 +55,10 @@ var Directed = [][]string{
 	// a timeout toxic updated while it is counting down; a slow_close updated while it delays a close
 	{"proxy p1 echo", "toxic p1 up t1 timeout {\"timeout\":200}", "hold p1 10", "retoxic p1 t1 {\"timeout\":0}", "more 10", "retoxic p1 t1 {\"timeout\":1}", "more 10"},
 	{"proxy p1 echo", "toxic p1 up t1 slow_close {\"delay\":200}", "halfclose p1 10", "retoxic p1 t1 {\"delay\":1}", "traffic p1 10 1"},
+	// a limit_data toxic that has closed its stub is updated while a slow_close behind it keeps the
+	// connection alive, and the sender goes on
+	{"proxy p1 echo", "toxic p1 up t1 limit_data {\"bytes\":10}", "toxic p1 up t2 slow_close {\"delay\":4000}", "hold p1 10", "retoxic p1 t1 {\"bytes\":100000}", "more 50", "more 50", "echo p1"},
+	{"proxy p1 echo", "toxic p1 down t1 limit_data {\"bytes\":10}", "toxic p1 down t2 slow_close {\"delay\":4000}", "hold p1 10", "retoxic p1 t1 {\"bytes\":100000}", "more 50", "more 50", "echo p1"},
 	// slicer and bandwidth re-parametrised in mid-stream
 	{"proxy p1 echo", "toxic p1 up t1 slicer {\"average_size\":10,\"size_variation\":3,\"delay\":50}", "hold p1 2000", "retoxic p1 t1 {\"average_size\":1,\"size_variation\":0,\"delay\":0}", "more 400"},
 	{"proxy p1 echo", "toxic p1 up t1 bandwidth {\"rate\":1}", "hold p1 2000", "retoxic p1 t1 {\"rate\":0}", "more 400", "retoxic p1 t1 {\"rate\":100000}", "more 50"},
